@@ -11,6 +11,7 @@ import (
 	"seehuhn.de/go/sfnt"
 
 	"seehuhn.de/go/sfnt/glyph"
+	"seehuhn.de/go/sfnt/opentype/coverage"
 	"seehuhn.de/go/sfnt/opentype/gtab"
 
 	"verif/explore"
@@ -212,11 +213,11 @@ func c15MapOrder(r *run.Run) {
 
 // the language systems of C15.findlookups: every subset of four systems, under every seed
 func c15MapOrderFind(r *run.Run) {
-	tags := []string{"und-Zzzz-x-dflt", "und-Latn-x-latn", "tr-Latn-x-latn-trk", "und-Cyrl-x-cyrl"}
+	tags := c15Tags
 	langs := []language.Tag{language.Und, language.English, language.German, language.Turkish, language.Japanese, language.Russian}
 	features := []*gtab.Feature{{Tag: "liga", Lookups: []gtab.LookupIndex{2, 0}}, {Tag: "kern", Lookups: []gtab.LookupIndex{1}}, {Tag: "locl", Lookups: []gtab.LookupIndex{3, 3, 1}}, {Tag: "smcp", Lookups: []gtab.LookupIndex{4, 9}}}
 	r.ExploreSharded(explore.Config{Name: "C15.map-order-findlookups", Deadline: r.PartDeadline(0.5)},
-		mapOrderRule("FindLookups on every script list over the subsets of {DFLT, latn, latn/TRK, cyrl} x 4 required-feature settings per system x 6 languages"),
+		mapOrderRule("FindLookups on every script list over the subsets of {DFLT, latn, latn/TRK, latn/DEU, cyrl} x 4 required-feature settings per system x 6 languages"),
 		mapOrderProcs, 0,
 		func(c *explore.Ctx) {
 			_, diff := underOrders(c, func(cc *explore.Ctx) string {
@@ -246,6 +247,45 @@ func c15MapOrderFind(r *run.Run) {
 			c.Outcome(fmt.Sprint(c.Choices()))
 			if diff != "" {
 				c.Fail("C15.repeatable", "map order", "FindLookups depends on map iteration order:\n%s", diff)
+			}
+		})
+}
+
+// c07MapOrderLayouter: the whole pipeline behind Layouter.Layout (choice of the language system, lookup
+// selection, application) under every map iteration order.
+func c07MapOrderLayouter(r *run.Run) {
+	tags := []string{"und-Zzzz-x-dflt", "und-Latn-x-latn", "tr-Latn-x-latn-trk", "de-Latn-x-latn-deu", "nl-Latn-x-latn-nld"}
+	langs := []language.Tag{language.Und, language.English, language.German, language.Turkish, language.French}
+	r.ExploreSharded(explore.Config{Name: "C07.map-order-layouter", Deadline: r.PartDeadline(0.3)},
+		mapOrderRule("fonts whose GSUB script list holds every subset of {DFLT, latn, latn/TRK, latn/DEU, latn/NLD}, each language system enabling its own single substitution of 'A', laid out through NewLayouter / Layout for 5 languages (incl. languages no system matches exactly)"),
+		mapOrderProcs, 0,
+		func(c *explore.Ctx) {
+			_, diff := underOrders(c, func(cc *explore.Ctx) string {
+				f, _ := FontFromChoices(gen.FontOpts{NoMeta: true, NoLayout: true}, gen.KindGlyf, 2, 0, 0, 1)
+				info := &gtab.Info{ScriptList: gtab.ScriptListInfo{}}
+				for i, t := range tags {
+					// language system i substitutes glyph 1 ('A') by glyph 2+i%4
+					info.LookupList = append(info.LookupList, gen.MakeLookup(1, gen.Flags[0], []gtab.Subtable{&gtab.Gsub1_2{Cov: coverage.Table{1: 0}, SubstituteGlyphIDs: []glyph.ID{glyph.ID(2 + i%4)}}}))
+					info.FeatureList = append(info.FeatureList, &gtab.Feature{Tag: "locl", Lookups: []gtab.LookupIndex{gtab.LookupIndex(i)}})
+					if cc.Bool("system " + t) {
+						info.ScriptList[language.MustParse(t)] = &gtab.Features{Required: 0xFFFF, Optional: []gtab.FeatureIndex{gtab.FeatureIndex(i)}}
+					}
+				}
+				f.Gsub = info
+				lang := langs[cc.Choose(len(langs), "language")]
+				if cc == c {
+					c.Shard(explore.KeyOf(c.Choices()...))
+				}
+				lay, err := f.NewLayouter(lang, map[string]bool{"locl": true}, nil)
+				if err != nil {
+					return "error " + err.Error()
+				}
+				return fmtInfos(lay.Layout("AAB"))
+			})
+			c.Nontrivial()
+			c.Outcome(fmt.Sprint(c.Choices()))
+			if diff != "" {
+				c.Fail("C07.map-order", "layouter", "what Layout returns depends on map iteration order (choices %v):\n%s", c.Choices(), diff)
 			}
 		})
 }
